@@ -11,6 +11,8 @@ RULES = {"C10.a", "C10.b", "C10.c", "C01.e", "C04.c", "C09.a"}
 
 def check(ctx):
     ctx.assume("offsets passed to set_offset/with_offset lie on character boundaries (property quantifier)")
-    cursor.analyze(ctx, RULES | {"C11.d", "C11.b"})   # advance_to(end of a peeked match): the peeked spans must be the coming ones, also after a reset
+    # (C11.a: nothing but the cursor fields survives from one call to the next, so resetting the cursor resets everything a scan
+    # depends on — a memo of the scanner, an automaton or a lookahead keyed by a *relative* position is stale after a reset)
+    cursor.analyze(ctx, RULES | {"C11.d", "C11.b", "C11.a"})   # advance_to(end of a peeked match): the peeked spans must be the coming ones, also after a reset
     from .common import cache_foundation
     cache_foundation(ctx)
